@@ -62,7 +62,10 @@ func fromCtyValue(val cty.Value, target reflect.Value, path cty.Path) error {
 	// pointers specially for these.
 	// (fromCtyList and fromCtyMap must therefore deal with val.IsNull, while
 	// other types can assume no nulls after this point.)
-	if val.IsNull() && !val.Type().IsListType() && !val.Type().IsMapType() && !val.Type().IsCapsuleType() {
+	// A list that is being decoded into an array (rather than a slice) cannot
+	// be nil without indirection, so it needs a pointer like everything else.
+	nilWithoutIndirection := (val.Type().IsListType() && deepTarget.Kind() != reflect.Array) || val.Type().IsMapType()
+	if val.IsNull() && !nilWithoutIndirection && !val.Type().IsCapsuleType() {
 		target = fromCtyPopulatePtr(target, true)
 		if target.Kind() != reflect.Ptr {
 			return path.NewErrorf("null value is not allowed")
